@@ -62,7 +62,8 @@ __CPROVER_ensures(this_ == g_model_max_surface ==> SAMEL(__CPROVER_return_value.
 #define ADIAB(z) FPX(WORLDP->potential_mantle_temperature * exp(((WORLDP->thermal_expansion_coefficient * gravity_norm) / WORLDP->specific_heat) * z))
 #define TT (this_->top_temperature < 0.0 ? ADIAB(ZT) : this_->top_temperature)
 #define TB (this_->bottom_temperature < 0.0 ? ADIAB(ZB) : this_->bottom_temperature)
-#define NEWT (TT + ((ZB - ZT < 10.0 * DBL_EPSILON) ? 0.0 : FPX((depth - ZT) * ((TB - TT) / (ZB - ZT)))))
+#define SLOPE_TERM ((FPXA(ZB - ZT) < 10.0 * DBL_EPSILON) ? 0.0 : FPX((depth - ZT) * ((TB - TT) / (ZB - ZT))))
+#define NEWT FPXA(TT + SLOPE_TERM)
 #endif
 
 double MCONTRACT(struct MTYPE *this_, struct Point3 *position, struct Objects_NaturalCoordinate *natural, double depth,
@@ -76,8 +77,8 @@ __CPROVER_assigns(wb_thrown)
 __CPROVER_ensures((!wb_thrown && !INRANGE) ==> SAME(__CPROVER_return_value, temperature_))
 /* inside: the documented expression, combined by the declared operation */
 __CPROVER_ensures((!wb_thrown && INRANGE && IS_REPLACE) ==> SAME(__CPROVER_return_value, NEWT))
-__CPROVER_ensures((!wb_thrown && INRANGE && OP == E_Operations_ADD) ==> SAME(__CPROVER_return_value, temperature_ + NEWT))
-__CPROVER_ensures((!wb_thrown && INRANGE && OP == E_Operations_SUBTRACT) ==> SAME(__CPROVER_return_value, temperature_ - NEWT))
+__CPROVER_ensures((!wb_thrown && INRANGE && OP == E_Operations_ADD) ==> SAME(__CPROVER_return_value, FPXA(temperature_ + NEWT)))
+__CPROVER_ensures((!wb_thrown && INRANGE && OP == E_Operations_SUBTRACT) ==> SAME(__CPROVER_return_value, FPXA(temperature_ - NEWT)))
 ;
 
 void MHARNESS(void)
